@@ -4,7 +4,7 @@
 //! `Pending` with no store call in flight is blocked on the inputs the harness controls.
 use std::collections::BTreeMap;
 use std::sync::Arc;
-use std::sync::atomic::{AtomicUsize, Ordering};
+use std::sync::atomic::{AtomicBool, AtomicUsize, Ordering};
 
 use p2panda_core::{Hash, Operation, SeqNum, Topic, VerifyingKey};
 use p2panda_store::SqliteStore;
@@ -21,6 +21,8 @@ type TErr = <SqliteStore as TopicStore<Topic, VerifyingKey, LogId>>::Error;
 pub struct ProbeStore {
     pub inner: SqliteStore,
     busy: Arc<AtomicUsize>,
+    /// fault injection: `TopicStore::resolve` answers with an error
+    fail_resolve: Arc<AtomicBool>,
 }
 
 struct Busy(Arc<AtomicUsize>);
@@ -38,7 +40,10 @@ impl Drop for Busy {
 
 impl ProbeStore {
     pub fn new(inner: SqliteStore) -> Self {
-        ProbeStore { inner, busy: Arc::new(AtomicUsize::new(0)) }
+        ProbeStore { inner, busy: Arc::new(AtomicUsize::new(0)), fail_resolve: Arc::new(AtomicBool::new(false)) }
+    }
+    pub fn set_fail_resolve(&self, on: bool) {
+        self.fail_resolve.store(on, Ordering::SeqCst);
     }
     pub fn busy(&self) -> usize {
         self.busy.load(Ordering::SeqCst)
@@ -109,6 +114,9 @@ impl TopicStore<Topic, VerifyingKey, LogId> for ProbeStore {
 
     async fn resolve(&self, topic: &Topic) -> Result<BTreeMap<VerifyingKey, Vec<LogId>>, TErr> {
         let _b = Busy::enter(&self.busy);
+        if self.fail_resolve.load(Ordering::SeqCst) {
+            return Err(TErr::TransactionMissing);
+        }
         TopicStore::<Topic, VerifyingKey, LogId>::resolve(self.store(), topic).await
     }
 }
